@@ -239,7 +239,7 @@ def replay_fuzz(prop, spec, path):
         env = fuzz.base_env((), t.get("env"))  # no exclusions while replaying
         rc, (kind, sig, reason, case), text = fuzz.run_file(binary, path, env)
         sys.stdout.write(text[-4000:])
-        if kind in ("violation", "sanitizer"):
+        if kind in ("violation", "sanitizer", "timeout"):   # timeout: the saved input of a hang finding (60 s limit)
             print(f"VIOLATION property={prop} replay={path}")
             rc_all = 1
     return rc_all
